@@ -115,14 +115,36 @@ type Universe struct {
 	Random     int  // seed-chosen deeper terms
 }
 
+// onlyByteLeaves: every leaf is uint8 and every map is int-keyed. Byte slices
+// are the one composite the templates special-case (bytes.Equal,
+// bytes.Compare), in every position a component can occur in; the fixed core
+// therefore contains every depth-2 term over the byte leaf.
+func onlyByteLeaves(t *Type) bool {
+	switch t.K {
+	case "basic":
+		return t.B == "uint8"
+	case "named", "self":
+		return false
+	case "map":
+		return t.Key.K == "basic" && t.Key.B == "int" && onlyByteLeaves(t.E)
+	}
+	for _, c := range t.Children() {
+		if !onlyByteLeaves(c) {
+			return false
+		}
+	}
+	return true
+}
+
 // SelectUniverse: quick = the fixed core (every term of depth <= 1: every
-// constructor over every leaf) + nQuick seed-chosen depth-2 terms + a few
-// depth-3; thorough = all of TypesUpTo(2) + random depth-3 terms.
+// constructor over every leaf; every depth-2 term over the byte leaf) +
+// nQuick seed-chosen depth-2 terms + a few depth-3; thorough = all of
+// TypesUpTo(2) + random depth-3 terms.
 func SelectUniverse(all []*Type, quick bool, seed int64, nQuick, nDeep int) *Universe {
 	u := &Universe{}
 	var core, rest []*Type
 	for _, t := range all {
-		if t.Depth() <= 1 {
+		if t.Depth() <= 1 || onlyByteLeaves(t) {
 			core = append(core, t)
 		} else {
 			rest = append(rest, t)
